@@ -69,6 +69,7 @@ impl Res {
 // ------------------------------------------------------------------------------------------
 thread_local! {
     static LAST_PANIC: RefCell<Option<(String, String)>> = const { RefCell::new(None) };
+    static GUARD_DEPTH: std::cell::Cell<u32> = const { std::cell::Cell::new(0) };
 }
 pub fn install_panic_hook() {
     std::panic::set_hook(Box::new(|info| {
@@ -84,7 +85,7 @@ pub fn install_panic_hook() {
         };
         let loc = info.location().map(|l| format!("{}:{}", l.file(), l.line())).unwrap_or_default();
         // panics of the harness itself must stay visible
-        if !loc.contains("/oxmpl/") && !loc.contains("rand") && std::env::var("VERIF_QUIET_PANICS").is_err() {
+        if GUARD_DEPTH.with(|d| d.get()) == 0 {
             eprintln!("[harness panic] {loc}: {msg}");
         }
         LAST_PANIC.with(|p| *p.borrow_mut() = Some((msg, loc)));
@@ -93,7 +94,10 @@ pub fn install_panic_hook() {
 /// Run `f`, mapping an unwind to Res::Panic / Res::Budget.
 pub fn guarded<T>(f: impl FnOnce() -> T) -> Result<T, Res> {
     LAST_PANIC.with(|p| *p.borrow_mut() = None);
-    match catch_unwind(AssertUnwindSafe(f)) {
+    GUARD_DEPTH.with(|d| d.set(d.get() + 1));
+    let r = catch_unwind(AssertUnwindSafe(f));
+    GUARD_DEPTH.with(|d| d.set(d.get() - 1));
+    match r {
         Ok(v) => Ok(v),
         Err(payload) => {
             if payload.downcast_ref::<BudgetTrip>().is_some() {
